@@ -129,3 +129,46 @@ int lin_lstsq(int m, int n, int nrhs, const lc_t *A, const lc_t *B,
     free(N);
     return rank;
 }
+
+int lin_pivots(int m, int n, lc_t *A, long double *piv)
+{
+    int steps = m < n ? m : n;
+    int count = 0;
+
+    for (int k = 0; k < steps; ++k) {
+	int pi = -1, pj = -1;
+	long double best = 0.0L;
+	for (int i = k; i < m; ++i)
+	    for (int j = k; j < n; ++j) {
+		long double a = cabsl(A[i * n + j]);
+		if (a > best) {
+		    best = a;
+		    pi = i;
+		    pj = j;
+		}
+	    }
+	if (pi < 0 || best == 0.0L || !(best == best))
+	    break;
+	piv[count++] = best;
+	if (pi != k)
+	    for (int j = 0; j < n; ++j) {
+		lc_t t = A[k * n + j];
+		A[k * n + j] = A[pi * n + j];
+		A[pi * n + j] = t;
+	    }
+	if (pj != k)
+	    for (int i = 0; i < m; ++i) {
+		lc_t t = A[i * n + k];
+		A[i * n + k] = A[i * n + pj];
+		A[i * n + pj] = t;
+	    }
+	for (int i = k + 1; i < m; ++i) {
+	    lc_t f = A[i * n + k] / A[k * n + k];
+	    if (f == 0.0L)
+		continue;
+	    for (int j = k; j < n; ++j)
+		A[i * n + j] -= f * A[k * n + j];
+	}
+    }
+    return count;
+}
